@@ -1,5 +1,5 @@
 (* C03 — Locale parsing accepts all well-formed locale ids and never silently drops input. *)
-From UL Require Import Bytes Subtags LangId Ext Grammar LangIdSpec LocaleSpec LangIdProofs ExtProofs LocaleSpecProofs.
+From UL Require Import Bytes Subtags LangId Ext Grammar LangIdSpec LocaleSpec LangIdProofs ExtProofs LocaleSpecProofs SplitProofs StringLevel LocaleGrammar LocaleGrammarProofs.
 From Coq Require Import String.
 
 (* Ok or Err for every byte string: no panic on unsupported / malformed singletons (D1) *)
@@ -57,6 +57,40 @@ Example C03_zones :
   /\ spec_locale_zone (split (bs "en-u-abcdefghi"%string)) = MustReject
   /\ spec_locale_zone (split (bs "en-u-ca-buddhist-ca-islamic"%string)) = Outside.
 Proof. repeat split; try (eexists; vm_compute; reflexivity); vm_compute; reflexivity. Qed.
+
+
+(* THE FIRST SENTENCE OF THE STATEMENT, against the EBNF itself.  spec/LocaleGrammar.v defines the well-formed
+   Unicode locale identifiers as an inductive relation on token lists (language identifier; at most one -u-
+   and at most one -t- extension in either order; a trailing -x- sequence; UTS #35 bodies; keys of one
+   extension distinct) together with the normalised value each denotes - no recogniser, no control flow.
+   Every member, written in any letter case with any mixture of '-' and '_' between its subtags, is accepted
+   with exactly that value; and it lies in the MustAccept zone of the executable specification (adequacy
+   of the oracle that judges the implementation in the correspondence run). *)
+Theorem C03_accepts_every_wellformed : forall toks seps v,
+  WFLocale toks v -> forallb is_sep seps = true -> locale_from_bytes (weave toks seps) = Ok v.
+Proof. exact WFLocale_accepted. Qed.
+Theorem C03_grammar_in_must_accept : forall toks v, WFLocale toks v -> spec_locale_zone toks = MustAccept v.
+Proof. exact WFLocale_must_accept. Qed.
+(* non-vacuity: an identifier with all three extensions is a member of the relation *)
+Example C03_grammar_witness : exists v,
+  WFLocale [bs "eN"; bs "us"; bs "U"; bs "attr"; bs "ca"; bs "buddhist"; bs "t"; bs "de"; bs "h0"; bs "hybrid"; bs "x"; bs "foo"]%string v
+  /\ loc_to_string v = bs "en-US-t-de-h0-hybrid-u-attr-ca-buddhist-x-foo"%string.
+Proof.
+  eexists. split.
+  - eapply (WFLocale_intro [bs "eN"; bs "us"]%string _
+             [bs "U"; bs "attr"; bs "ca"; bs "buddhist"; bs "t"; bs "de"; bs "h0"; bs "hybrid"]%string _ _ [bs "x"; bs "foo"]%string _).
+    + apply (WFT_intro (bs "eN"%string) None (Some (bs "us"%string)) []); [reflexivity|exact I|reflexivity|reflexivity].
+    + eapply (UT_ut (bs "U"%string) [bs "attr"; bs "ca"; bs "buddhist"]%string _ (bs "t"%string) [bs "de"; bs "h0"; bs "hybrid"]%string _);
+        [reflexivity| |reflexivity|].
+      * apply (WFU_intro [bs "attr"]%string [(bs "ca", [bs "buddhist"])]%string); [reflexivity|reflexivity|left; discriminate|].
+        repeat constructor. intros [].
+      * eapply (WFT_lang [bs "de"]%string _ [(bs "h0", [bs "hybrid"])]%string); [|reflexivity|repeat constructor; intros []].
+        apply (WFT_intro (bs "de"%string) None None []); [reflexivity|exact I|exact I|reflexivity].
+    + apply (X_some (bs "x"%string) [bs "foo"]%string); [reflexivity|discriminate|reflexivity].
+  - vm_compute. reflexivity.
+Qed.
+Print Assumptions C03_accepts_every_wellformed.
+Print Assumptions C03_grammar_in_must_accept.
 
 Print Assumptions C03_sound.
 Print Assumptions C03_complete.
